@@ -149,6 +149,12 @@ func (e *Enc) obligeAssume(kind, label string, guard, goal T, src string, pos to
 	if goal.E == "true" || guard.E == "false" || e.specEval > 0 {
 		return
 	}
+	if len(e.inlineStack) > 0 && (kind == "bounds" || kind == "div" || kind == "nil") && !(e.contract != nil && e.contract.NoPanic) {
+		// run-time panics inside inlined callees are not this function's obligations: assumed absent
+		// (they are obligations of the callee's own contract, or of a harness marked nopanic)
+		e.assert(Implies(guard, goal))
+		return
+	}
 	e.oblige(kind, label, guard, goal, src, pos)
 	e.assert(Implies(guard, goal))
 }
@@ -291,8 +297,53 @@ func (e *Enc) get(fr *Frame, v ssa.Value) Val {
 		}
 	}
 	if fr.lazy {
-		// value defined outside the encoded region: arbitrary value of its type
+		// value defined outside the encoded region: pure instructions are recomputed from their
+		// (lazily introduced) operands so that e.g. `n := len(xs)` stays tied to xs
+		pure := false
+		switch x := v.(type) {
+		case *ssa.BinOp, *ssa.Convert, *ssa.ChangeType, *ssa.Field:
+			pure = true
+		case *ssa.UnOp:
+			pure = x.Op != token.MUL && x.Op != token.ARROW
+		case *ssa.Call:
+			if b, ok := x.Call.Value.(*ssa.Builtin); ok && (b.Name() == "len" || b.Name() == "cap") {
+				if _, isSlice := x.Call.Args[0].Type().Underlying().(*types.Slice); isSlice {
+					pure = true
+				}
+			}
+		}
+		if pure && e.st != nil {
+			ins := v.(ssa.Instruction)
+			e.specEval++
+			func() {
+				defer func() { e.specEval-- }()
+				e.instr(fr, ins.Block(), ins, True, e.st)
+			}()
+			if x, ok := fr.vals[v]; ok {
+				return x
+			}
+		}
+		// otherwise: arbitrary value of its type
+		qd := e.quantDepth
+		e.quantDepth = 0
+		defer func() { e.quantDepth = qd }()
 		x := e.freshVal(v.Type(), "ext_"+v.Name())
+		if e.discovery == 0 && x.Tup == nil {
+			nm := v.Name()
+			if p, ok := v.(*ssa.Parameter); ok {
+				nm = p.Name()
+			} else if ph, ok := v.(*ssa.Phi); ok && ph.Comment != "" {
+				nm = ph.Comment
+			} else if c, ok := v.(ssa.Instruction); ok {
+				nm = e.srcLabel(c.Pos(), v.Name()) + " (" + v.Name() + ")"
+			}
+			sh := e.shape(v.Type())
+			for i, l := range x.L {
+				if i < len(sh) {
+					e.inputs = append(e.inputs, ModelVar{Name: nm + sh[i].Path, Term: l, Typ: v.Type()})
+				}
+			}
+		}
 		if _, isAlloc := v.(*ssa.Alloc); isAlloc {
 			e.assert(T{BoolS, app("<", "0", x.L[0].E)})
 		}
@@ -362,10 +413,17 @@ func (e *Enc) havocAll(st *State, why string) {
 		e.writes["*"] = true
 	}
 	oldTop := e.heapGet(st, "!top", IntS)
-	for k := range st.H {
+	keep := map[string]T{}
+	for k, v := range st.H {
+		if strings.HasPrefix(k, "!called|") {
+			keep[k] = v
+		}
 		delete(st.H, k)
 	}
 	st.ep = e.newEpoch()
+	for k, v := range keep {
+		st.H[k] = v
+	}
 	nt := e.heapGet(st, "!top", IntS)
 	e.assert(T{BoolS, app("<=", oldTop.E, nt.E)})
 }
@@ -539,7 +597,43 @@ func (e *Enc) loopHeader(fr *Frame, li *LoopInfo, guard T, st *State) (T, *State
 	if fr.hdrPhis == nil {
 		fr.hdrPhis = map[*ssa.Phi]Val{}
 	}
+	e.assumeRangeIndex(fr, hdr, guard)
 	return guard, st
+}
+
+// assumeRangeIndex: go/ssa lowers `for i := range slice` to a hidden index phi ("rangeindex")
+// running from -1; at the loop head -1 <= index < len holds by construction of the lowering.
+func (e *Enc) assumeRangeIndex(fr *Frame, hdr *ssa.BasicBlock, guard T) {
+	for _, ins := range hdr.Instrs {
+		phi, ok := ins.(*ssa.Phi)
+		if !ok {
+			break
+		}
+		if phi.Comment != "rangeindex" {
+			continue
+		}
+		pv, ok := fr.vals[phi]
+		if !ok || len(pv.L) != 1 {
+			continue
+		}
+		idx := pv.L[0]
+		e.assert(Implies(guard, e.sle(IntLit64(idx.S, -1), idx)))
+		// find `inc < len` in the header
+		for _, in2 := range hdr.Instrs {
+			b, ok := in2.(*ssa.BinOp)
+			if !ok || b.Op != token.LSS {
+				continue
+			}
+			inc, ok := b.X.(*ssa.BinOp)
+			if !ok || inc.X != phi {
+				continue
+			}
+			lv := e.get(fr, b.Y)
+			if len(lv.L) == 1 && lv.L[0].S.Eq(idx.S) {
+				e.assert(Implies(guard, And(e.slt(idx, lv.L[0]), e.sle(lv.L[0], e.maxLen()))))
+			}
+		}
+	}
 }
 
 func clabel(c *Clause) string {
@@ -606,7 +700,7 @@ func (e *Enc) discoverWrites(fr *Frame, li *LoopInfo, guard T, st *State) map[st
 	// keep declarations/definitions made during discovery (caches may refer to them), drop assertions
 	kept := e.out[:saveOut]
 	for _, l := range e.out[saveOut:] {
-		if !strings.HasPrefix(l, "(assert") {
+		if !strings.HasPrefix(l, "(assert ") { // "(assert\t..." lines are definitional axioms and are kept
 			kept = append(kept, l)
 		}
 	}
@@ -743,6 +837,7 @@ func (e *Enc) backEdge(fr *Frame, from, hdr *ssa.BasicBlock, guard T, st *State)
 		// loop-body contract: old() refers to the header state
 		sc.old = fr.entrySt
 		sc.oldOver = nil
+		sc.oldHdr = hdr
 		for _, c := range spec.BodyEns {
 			t := e.evalBool(sc, c.E)
 			e.oblige("body-post", fmt.Sprintf("loop%d:%s", li.ord, clabel(c)), guard, t, c.Src, pos)
@@ -777,6 +872,7 @@ func (e *Enc) exitEdge(fr *Frame, from, to *ssa.BasicBlock, guard T, st *State) 
 	}
 	sc := e.scopeAt(fr, from, len(from.Instrs)-1, st)
 	sc.old = fr.entrySt
+	sc.oldHdr = li.header
 	for _, c := range spec.ExitEns {
 		t := e.evalBool(sc, c.E)
 		e.oblige("body-exit", fmt.Sprintf("loop%d:%s", li.ord, clabel(c)), guard, t, c.Src, from.Instrs[len(from.Instrs)-1].Pos())
